@@ -644,8 +644,8 @@ func makeScriptedCase(idx int, r *mrand.Rand) scriptedCase {
 		if p(30) {
 			cs.OCSP = randBytes(r, 10+r.IntN(300))
 		}
-		for i, n := 0, r.IntN(3); i < n && p(40); i++ {
-			cs.SCTs = append(cs.SCTs, makeSCT(r))
+		if p(45) {
+			cs.SCTs = makeSCTList(r, 1+r.IntN(5))
 		}
 		if p(35) {
 			cs.Unknown = append(cs.Unknown, extn{Typ: uint16(pick(r, []int{0x5501, 0x0a0a, 65000, 0})), Data: nil})
